@@ -109,6 +109,8 @@ spifconf_init_subsystem(void)
 unsigned char
 spifconf_register_context(spif_charptr_t name, ctx_handler_t handler)
 {
+    unsigned char idx;
+
     ASSERT_RVAL(!SPIF_PTR_ISNULL(name), (unsigned char) -1);
     ASSERT_RVAL(!SPIF_PTR_ISNULL(handler), (unsigned char) -1);
 
@@ -117,13 +119,16 @@ spifconf_register_context(spif_charptr_t name, ctx_handler_t handler)
             ctx_cnt *= 2;
             context = (ctx_t *) REALLOC(context, sizeof(ctx_t) * ctx_cnt);
         }
+        idx = ctx_idx;
     } else {
+        /* The "null" context always lives in slot 0; replace it in place. */
         FREE(context[0].name);
+        idx = 0;
     }
-    context[ctx_idx].name = (spif_charptr_t) STRDUP(name);
-    context[ctx_idx].handler = handler;
-    D_CONF(("Added context \"%s\" with ID %d and handler 0x%08x\n", context[ctx_idx].name, ctx_idx, context[ctx_idx].handler));
-    return (ctx_idx);
+    context[idx].name = (spif_charptr_t) STRDUP(name);
+    context[idx].handler = handler;
+    D_CONF(("Added context \"%s\" with ID %d and handler 0x%08x\n", context[idx].name, idx, context[idx].handler));
+    return (idx);
 }
 
 /* Register a new file state structure */
